@@ -94,7 +94,7 @@ Theorem every_run_accepts_after_opens_or_refuses_without_user_code :
   forall (K : Type) (openx : K -> bytes -> bytes -> option payload) strict k cold c q,
   let tr := fst (handle K openx strict k cold c q) in
   (last_resp tr = (200, LOk)
-   /\ map ev_code (filter user_code tr) = [1; 2; 3; 4]
+   /\ map ev_code (filter user_code tr) = [1; 2; if q_cancel q then 5 else 3; 4]
    /\ exists tc cid r0, q_cursor q = Some tc /\ open_token K openx strict k SCursor tc = inr (cid, r0)
       /\ ((cold = false /\ cache_get c cid = Some (q_route q))
           \/ exists tk, q_call q = Some tk /\ open_token K openx strict k SCall tk = inr (cid, q_route q)
